@@ -24,7 +24,8 @@ ASSUMPTIONS = ["reference root rule (vf/refs/models.py), reference signer"]
 
 CLASSES = ["honest", "honest", "honest", "honest_junk", "replay_current", "rollback", "skip", "revoked", "self_appointed",
            "insufficient_old", "insufficient_new", "type_confused", "malformed", "corrupted_sigs", "wrong_payload_sigs",
-           "replayed_signatures", "replayed_signatures", "draft_threshold_above_keys", "draft_threshold_above_keys"]
+           "replayed_signatures", "replayed_signatures", "draft_threshold_above_keys", "draft_threshold_above_keys",
+           "superset_takeover", "superset_takeover", "same_keys_lower_threshold_by_outsider"]
 
 
 def plan(tier, seed):
@@ -112,6 +113,17 @@ def gen_offer(cls, trusted, accepted_log, rng):
         good["signed"]["delegations"]["root"]["pubkeys"] = [k.hex for k in att] + good["signed"]["delegations"]["root"]["pubkeys"]
         good["signed"]["delegations"]["root"]["threshold"] = 1
         return good, True
+    if cls == "superset_takeover":
+        # keeps every current root key, ADDS attacker keys, equal-or-higher threshold, signed by the added keys only
+        att = (outsiders[:max(1, min(len(outsiders), t if t <= 3 else 3))]) or [gkeys.key(25)]
+        t_new = rng.choice([min(t, len(K)) or 1, len(att), max(1, min(t, len(K)))])
+        t_new = max(1, min(t_new, len(att)))
+        ks = list(K) + att
+        rng.shuffle(ks)
+        return rootchain.signed_root(v + 1, ks, max(t_new, min(t, len(att))), att, rng), len(att) < 10**9
+    if cls == "same_keys_lower_threshold_by_outsider":
+        att = outsiders[:1] or [gkeys.key(26)]
+        return rootchain.signed_root(v + 1, list(K), 1, att, rng, unauthorized=att), True
     if cls == "draft_threshold_above_keys":
         # legal "draft" shape: the offered root demands more signers than it lists; every listed key (and a threshold of the
         # current keys) signs, further entries follow - it can never satisfy its own rule and must not be stepped into
